@@ -221,7 +221,7 @@ def ulp_down(x):
   return math.nextafter(x, -INF)
 
 
-def gen_leaf(rng, name, kind=None, allow_custom=False):
+def gen_leaf(rng, name, kind=None, allow_custom=False, wire_safe=False):
   """A valid builder call (no fault)."""
   kinds = ['float', 'int', 'discrete', 'categorical', 'bool', 'factory']
   if allow_custom and rng.random() < 0.05:
@@ -241,12 +241,12 @@ def gen_leaf(rng, name, kind=None, allow_custom=False):
     hi = lo + rng.choice([0, 1, 3, 7])
     if rng.random() < 0.2:
       lo, hi = float(lo), float(hi)           # integral floats are accepted
-    if rng.random() < 0.1:
+    if rng.random() < 0.1 and not wire_safe:
       lo, hi = bool(rng.getrandbits(1)), True
       lo = min(lo, hi)
     n['lo'], n['hi'] = lo, hi
     if rng.random() < 0.3:
-      n['default'] = rng.choice([int(lo), int(hi), float(int(lo)), 42, True])
+      n['default'] = rng.choice([int(lo), int(hi), float(int(lo)), 42] + ([] if wire_safe else [True]))
   elif k == 'discrete':
     pool = rng.choice([INTS, FLOATS[:8], INTS + FLOATS[:8], [0, 1, 2, 3.0, 4.0], [True, 2, 3.5]])
     vals = []
@@ -302,9 +302,9 @@ def feasible_points(n, rng, k=2):
   return pts[:k]
 
 
-def gen_tree(rng, name_iter, depth, kind=None, allow_custom=False, p_child=0.6):
+def gen_tree(rng, name_iter, depth, kind=None, allow_custom=False, p_child=0.6, wire_safe=False):
   """A valid (conditional) definition of depth <= `depth` with distinct names."""
-  n = gen_leaf(rng, next(name_iter), kind, allow_custom)
+  n = gen_leaf(rng, next(name_iter), kind, allow_custom, wire_safe)
   if depth > 1 and rng.random() < p_child:
     pts = feasible_points(n, rng, 3)
     if pts:
@@ -320,7 +320,7 @@ def gen_tree(rng, name_iter, depth, kind=None, allow_custom=False, p_child=0.6):
           vals = sorted(vals)
         except TypeError:
           pass
-        children.append((vals, gen_tree(rng, name_iter, depth - 1, None, False, p_child)))
+        children.append((vals, gen_tree(rng, name_iter, depth - 1, None, False, p_child, wire_safe)))
       n['children'] = children
   return n
 
